@@ -382,44 +382,72 @@ def rule_rcs380(report, prog):
                  key(f.qname, 'ack / error frame constants'), f.loc(), 'ack/err frame constants changed')
 
 
+def _crc16_ref(data, init):
+    """ISO/IEC 14443-3 Annex B (ITU-T V.41 reflected polynomial 8408h, LSB first), written independently of the library."""
+    crc = init
+    for b in data:
+        b ^= crc & 0xFF
+        b = (b ^ (b << 4)) & 0xFF
+        crc = ((crc >> 8) ^ (b << 8) ^ (b << 3) ^ (b >> 4)) & 0xFFFF
+    return crc
+
+
 def rule_crc(report, prog):
-    m = prog.modules[DEV]
+    """R5: calculate_crc and the four add / check helpers are folded by the checker's interpreter (loops over the message octets and
+    the eight bit positions included) for every one octet message, a grid of two octet messages and some longer ones, and compared
+    with an independent implementation of the ISO/IEC 14443-3 CRC: CRC_A preset 6363h, CRC_B preset FFFFh with final complement,
+    both appended low octet first; a check accepts exactly the frames whose last two octets are that CRC."""
+    from ..q import fold_func, NotConst
     calc = prog.func(DEV + '.calculate_crc')
-    # polynomial, bit order
-    okk = bool(find(calc.node, 'reg = reg ^ 33800')) and bool(find(calc.node, 'reg = reg >> 1')) and \
-        bool(find(calc.node, 'bit = (reg ^ octet >> pos & 1) & 1')) and \
-        any(isinstance(x, ast.For) and norm(x.iter) == 'range(8)' for x in walk_no_nested(calc.node)) and \
-        any(isinstance(x, ast.For) and norm(x.iter) == 'data[:size]' for x in walk_no_nested(calc.node))
-    report.check(okk, 'C14-R5', key(calc.qname, 'reflected CCITT polynomial 0x8408, LSB first, 8 shifts per octet over data[:size]'),
-                 calc.loc(), 'calculate_crc no longer has the ISO/IEC 14443-3 shape')
-    body = calc.node.body
-    # the xor is conditional on the shifted-out bit and happens after the shift
-    inner = [x for x in ast.walk(calc.node) if isinstance(x, ast.For) and norm(x.iter) == 'range(8)']
-    if inner:
-        seq = [norm(s) if not isinstance(s, ast.If) else 'if %s: %s' % (norm(s.test), '; '.join(norm(y) for y in live(s.body))) for s in live(inner[0].body)]
-        report.check(seq == ['bit = (reg ^ octet >> pos & 1) & 1', 'reg = reg >> 1', 'if bit: reg = reg ^ 33800'], 'C14-R5',
-                     key(calc.qname, 'bit step: feedback bit, shift, conditional xor'), calc.loc(), 'CRC bit step changed: %s' % seq)
+    msgs = [b''] + [bytes([a]) for a in range(256)] + [bytes([a, b]) for a in range(0, 256, 17) for b in range(0, 256, 23)] + \
+        [bytes(range(9)), b'\x12\x34', b'\x00\x00\x00', bytes(range(250, 256)) * 3]
+    bad = []
+    for m in msgs:
+        for init in (0x6363, 0xFFFF):
+            try:
+                got = fold_func(prog, calc, [bytearray(m), len(m), init])
+            except NotConst as e:
+                bad.append('cannot fold calculate_crc (%s)' % e)
+                break
+            if got != _crc16_ref(m, init):
+                bad.append('calculate_crc(%s, preset %04X) = %r, ISO/IEC 14443-3 gives %04X' % (m.hex() or "''", init, got, _crc16_ref(m, init)))
+        if bad and bad[-1].startswith('cannot'):
+            break
+    report.check(not bad, 'C14-R5', key(calc.qname, 'CRC register equals the ISO/IEC 14443-3 CRC for every message folded'), calc.loc(),
+                 '; '.join(bad[:2]), detail='%d messages x 2 presets folded' % len(msgs))
+    # a size argument shorter than the data covers a prefix only
+    try:
+        okp = fold_func(prog, calc, [bytearray(b'\x12\x34\x56'), 2, 0x6363]) == _crc16_ref(b'\x12\x34', 0x6363)
+    except NotConst:
+        okp = False
+    report.check(okp, 'C14-R5', key(calc.qname, 'the CRC covers data[:size]'), calc.loc(), 'calculate_crc does not stop at `size` octets')
     dev = prog.cls(DEV + '.Device')
-    spec = {'a': (0x6363, False), 'b': (0xFFFF, True)}
-    for kind, (init, compl) in sorted(spec.items()):
+
+    def _args(fn, data):
+        return [data] if len(fn.params) == 1 else [None, data]
+    for kind, init, compl in (('a', 0x6363, False), ('b', 0xFFFF, True)):
         add = dev.methods['add_crc_' + kind]
         chk = dev.methods['check_crc_' + kind]
-        for fn, size in ((add, 'len(data)'), (chk, 'len(data) - 2')):
-            c = [x for x in ast.walk(fn.node) if isinstance(x, ast.Call) and norm(x.func) == 'calculate_crc']
-            okk = len(c) == 1 and [norm(a) for a in c[0].args[:2]] == ['data', size] and try_const(c[0].args[2]) == init
-            report.check(okk, 'C14-R5', key(fn.qname, 'CRC_%s over %s with initial value %04X' % (kind.upper(), size, init)), fn.loc(),
-                         '%s calls %s' % (fn.name, norm(c[0]) if c else None))
-            asg = [x for x in walk_no_nested(fn.node) if isinstance(x, ast.Assign) and norm(x.targets[0]) == 'crc']
-            has_c = bool(asg) and norm(asg[0].value).startswith('~calculate_crc(') and norm(asg[0].value).endswith('& 65535')
-            plain = bool(asg) and norm(asg[0].value).startswith('calculate_crc(')
-            report.check(has_c if compl else plain, 'C14-R5', key(fn.qname, 'CRC_%s %s complement' % (kind.upper(), 'with' if compl else 'without')),
-                         fn.loc(), '%s: complement handling changed: %s' % (fn.name, norm(asg[0].value) if asg else None))
-        # appended order == compared order (low byte first)
-        r_add = [x for x in walk_no_nested(add.node) if isinstance(x, ast.Return)][0].value
-        r_chk = [x for x in walk_no_nested(chk.node) if isinstance(x, ast.Return)][0].value
-        okk = norm(r_add) == 'data + bytearray([crc & 255, crc >> 8])' and norm(r_chk) == '(data[-2], data[-1]) == (crc & 255, crc >> 8)'
-        report.check(okk, 'C14-R5', key(dev.qname, 'CRC_%s appended low byte first and compared in the same order' % kind.upper()), add.loc(),
-                     'add/check byte order disagree: %s / %s' % (norm(r_add), norm(r_chk)))
+        bad = []
+        for m in msgs[::7] + [b'\x12\x34', b'\x00\x00\x00']:
+            ref = _crc16_ref(m, init)
+            if compl:
+                ref = ~ref & 0xFFFF
+            want = bytes(m) + bytes([ref & 0xFF, ref >> 8])
+            try:
+                got = fold_func(prog, add, _args(add, bytearray(m)))
+                ok_good = fold_func(prog, chk, _args(chk, bytearray(want)))
+                ok_bad1 = fold_func(prog, chk, _args(chk, bytearray(want[:-1] + bytes([want[-1] ^ 1]))))
+                ok_bad2 = fold_func(prog, chk, _args(chk, bytearray(want[:-2] + bytes([want[-1], want[-2]])))) if want[-1] != want[-2] else False
+            except NotConst as e:
+                bad.append('cannot fold add_crc_%s / check_crc_%s (%s)' % (kind, kind, e))
+                break
+            if bytes(got) != want:
+                bad.append('add_crc_%s(%s) = %s, expected %s' % (kind, m.hex(), bytes(got).hex(), want.hex()))
+            if ok_good is not True or ok_bad1 is not False or ok_bad2 is not False:
+                bad.append('check_crc_%s accepts / refuses the wrong frames for message %s (%r, %r, %r)' % (kind, m.hex(), ok_good, ok_bad1, ok_bad2))
+        report.check(not bad, 'C14-R5', key(dev.qname, 'CRC_%s: preset %04X%s, appended low octet first, checked in the same order' % (
+            kind.upper(), init, ', complemented' if compl else '')), add.loc(), '; '.join(bad[:2]))
 
 
 def rule_crc_routing(report, prog, rule='C14-R7'):
